@@ -470,16 +470,16 @@ static void read_integer_value(fb_parser_t *P, fb_token_t *t, fb_value_t *v, int
         v->type = vt_invalid;
         error_tok(P, t, "invalid integer format");
     }
-    if (sign) {
-        v->i = -(int64_t)v->u;
-        v->type = vt_int;
-#ifdef FLATCC_FAIL_ON_INT_SIGN_OVERFLOW
-        /* Sometimes we might want this, so don't fail by default. */
-        if (v->i > 0) {
+    if (sign && v->type != vt_invalid) {
+        if (v->u > (uint64_t)INT64_MAX + 1) {
+            /* The negated value does not fit int64_t: never wrap silently. */
             v->type = vt_invalid;
             error_tok(P, t, "sign overflow in integer format");
+        } else {
+            /* Negate as unsigned, which is also well defined for INT64_MIN. */
+            v->i = (int64_t)(UINT64_C(0) - v->u);
+            v->type = vt_int;
         }
-#endif
     }
 }
 
@@ -494,16 +494,16 @@ static void read_hex_value(fb_parser_t *P, fb_token_t *t, fb_value_t *v, int sig
         v->type = vt_invalid;
         error_tok(P, t, "invalid hex integer format");
     }
-    if (sign) {
-        v->i = -(int64_t)v->u;
-        v->type = vt_int;
-#ifdef FLATCC_FAIL_ON_INT_SIGN_OVERFLOW
-        /* Sometimes we might want this, so don't fail by default. */
-        if (v->i > 0) {
+    if (sign && v->type != vt_invalid) {
+        if (v->u > (uint64_t)INT64_MAX + 1) {
+            /* The negated value does not fit int64_t: never wrap silently. */
             v->type = vt_invalid;
             error_tok(P, t, "sign overflow in hex integer format");
+        } else {
+            /* Negate as unsigned, which is also well defined for INT64_MIN. */
+            v->i = (int64_t)(UINT64_C(0) - v->u);
+            v->type = vt_int;
         }
-#endif
     }
 }
 
